@@ -139,7 +139,7 @@ theorem treeOk_of_root {t : Tree K V} {hole : Option Nat} (hok : TreeOk' hole t)
     (hh : ∀ c, hole = some c → c = t.rootId)
     (hr : hole = some t.rootId → minOf t.order t.rootId none t.rootId t.depth ≤ Node.count t.root) :
     TreeOk none t := by
-  refine ⟨hok.ids, ?_, hok.chain, hok.order4, hok.even⟩
+  refine ⟨hok.ids, ?_, hok.chain, by have := hok.order4; omega, fun _ => hok.order4, hok.even⟩
   intro p hp
   have h0 := hok.occ p hp
   by_cases h1 : hole = some p.1
@@ -210,7 +210,7 @@ theorem finish_step {t : Tree K V} {small : Bool}
         have hrw := Rw.dropHead (K := K) (V := V) (r : Inner K (Node K V d)).id (shallow (d := d + 1) r) (flat k)
           (Nat.succ_ne_zero _) hnd
         have ho4 : 4 ≤ o := hok.order4
-        refine ⟨⟨⟨hrw.nodup hnd, ?_⟩, ?_, ?_, hok.order4, hok.even⟩, rfl, rfl, ?_⟩
+        refine ⟨⟨⟨hrw.nodup hnd, ?_⟩, ?_, ?_, (by omega : 2 ≤ o), fun _ => ho4, hok.even⟩, rfl, rfl, ?_⟩
         · intro x hx
           have := hrw.idmem x hx
           rw [← hfl] at this
